@@ -47,6 +47,10 @@ impl Plan {
         self.horizon = horizon;
         self
     }
+    pub fn with_horizon(mut self, horizon: u32) -> Self {
+        self.horizon = horizon;
+        self
+    }
     pub fn with_slow0(mut self, k: u32) -> Self {
         self.slow0 = k;
         self
